@@ -145,7 +145,9 @@ class Worker(threading.Thread):
 
     def setup(self):
         os.makedirs(self.sc, exist_ok=True)
-        sh(["git", "-C", REPO, "worktree", "add", "-q", "--detach", f"{self.sc}/repo", "HEAD"], "/")
+        with self.lock:  # concurrent `git worktree add` calls race on the repository lock
+            rc, out = sh(["git", "-C", REPO, "worktree", "add", "-q", "--detach", f"{self.sc}/repo", "HEAD"], "/")
+            assert rc == 0, out
         sh(["rsync", "-a", "--exclude", "target", "--exclude", ".git", "--exclude", "evidence", "--exclude", "replays",
             "--exclude", "logs", "--exclude", "seeded", f"{VERIF}/", f"{self.sc}/verif/"], "/")
         ct = f"{self.sc}/verif/harness/Cargo.toml"
